@@ -15,6 +15,7 @@ LEVEL_TEXT = ('Inverse pairs and twin agreement are exact real-number identities
 LEVEL_NOTE = ('Trusted: front-ends, interpreter, real algebra (rounding error of the inverse pairs is not decided). scipy.constants.G is read from the installed scipy source text (external).')
 EXPLANATION = ('R17.1 inverse pairs (py and pyx); R17.2 py twin == pyx twin incl. constants; R17.3 only OrbitBase methods store the Kepler lists, property setters raise; '
                'R17.4 after every mutator the stored (a, n, P) of that world satisfy Kepler III with (host mass, world mass) and P = 2 pi / n / 86400, or are all cleared, setters write exactly the designated slot and getters read the slot the setters write; R17.5 no in-place update of arguments.')
+EXPLANATION += ' R17.6 the array twin: every interpreted call repeated with array arguments (mutable cells) returns the scalar values element for element and leaves the arguments intact.'
 
 PAIRS = (('m2Au', 'Au2m'), ('rads2days', 'days2rads'), ('sec2myr', 'myr2sec'), ('orbital_motion2semi_a', 'semi_a2orbital_motion'))
 
